@@ -178,7 +178,8 @@ def find_item(src, m, seg, lo, hi):
                 j += 1
             header = norm_ws(src[s + 4:j])
             want = norm_ws(rest)
-            if header == want or _strip_generics(header) == want:
+            hs = _strip_generics(header)
+            if header == want or hs == want or header.startswith(want + ' where') or hs.startswith(want + ' where'):
                 cands.append((s, e, mm))
     else:
         raise NotFound('unknown item kind in %r' % seg)
